@@ -90,6 +90,10 @@ structure PArith (F : Type) where
   le : F → F → Bool
   /-- `next_int_range(lo, hi)` for the draw `n`: `(lo + next_double() * (hi - lo)) as i32` -/
   range : Int → Int → Nat → Int
+  /-- `f64::from(i)` for an `i32` -/
+  ofInt : Int → F
+  /-- `x.floor() as i32` (saturating cast) -/
+  floorI32 : F → Int
 
 namespace PArith
 variable {F : Type} (A : PArith F)
@@ -114,6 +118,8 @@ def floatArith : PArith Float where
   le a b := a ≤ b
   range lo hi n :=
     (Float.ofInt lo + ((1.0 / (2147483647.0 + 1.0)) * Float.ofNat n) * Float.ofInt (hi - lo)).toInt32.toInt
+  ofInt := Float.ofInt
+  floorI32 x := x.floor.toInt32.toInt
 
 /-! ## flags -/
 
@@ -316,17 +322,20 @@ def hitRandomNotes (A : PArith F) (g : HitIn F) (noteCount : Int) (s : Osu) : M 
 /-- `has_special_column()` -/
 def hasSpecial (sample : Nat) : Bool := sampleHas sample S_CLAP && sampleHas sample S_FINISH
 
+/-- the per-key-count caps of `HitObjectPatternGenerator::get_random_note_count` -/
+def hitProbs (A : PArith F) (total : Nat) (p2 p3 p4 p5 : F) : F × F × F × F :=
+  if total = 2 then (A.pct 0, A.pct 0, A.pct 0, A.pct 0)
+  else if total = 3 then (A.min p2 (A.pct 10), A.pct 0, A.pct 0, A.pct 0)
+  else if total = 4 then (A.min p2 (A.pct 23), A.min p3 (A.pct 4), A.pct 0, A.pct 0)
+  else if total = 5 then (p2, A.min p3 (A.pct 15), A.min p4 (A.pct 3), A.pct 0)
+  else (p2, p3, p4, p5)
+
 /-- `HitObjectPatternGenerator::get_random_note_count(p2, p3, p4, p5)` -/
 def hitNoteCount (A : PArith F) (g : HitIn F) (p2 p3 p4 p5 : F) (s : Osu) : Int × Osu :=
-  let z := A.pct 0
-  let (p2, p3, p4, p5) :=
-    if g.total = 2 then (z, z, z, z)
-    else if g.total = 3 then (A.min p2 (A.pct 10), z, z, z)
-    else if g.total = 4 then (A.min p2 (A.pct 23), A.min p3 (A.pct 4), z, z)
-    else if g.total = 5 then (p2, A.min p3 (A.pct 15), A.min p4 (A.pct 3), z)
-    else (p2, p3, p4, p5)
-  let p2 := if sampleHas g.sample S_CLAP then A.pct 100 else p2
-  noteCount A s p2 p3 p4 p5 z
+  noteCount A s
+    (if sampleHas g.sample S_CLAP then A.pct 100 else (hitProbs A g.total p2 p3 p4 p5).1)
+    (hitProbs A g.total p2 p3 p4 p5).2.1 (hitProbs A g.total p2 p3 p4 p5).2.2.1
+    (hitProbs A g.total p2 p3 p4 p5).2.2.2 (A.pct 0)
 
 /-- `generate_random_pattern(p2, p3, p4, p5)` -/
 def hitRandomPattern (A : PArith F) (g : HitIn F) (p2 p3 p4 p5 : F) (s : Osu) : M (Pat × Osu) := do
@@ -337,26 +346,26 @@ def hitRandomPattern (A : PArith F) (g : HitIn F) (p2 p3 p4 p5 : F) (s : Osu) : 
     .ok (pat', s2)
   else .ok (pat, s2)
 
+/-- the per-key-count adjustments of `get_random_note_count_mirrored`: (centre, p2, p3) before the
+clamp -/
+def mirrorProbs (A : PArith F) (total : Nat) (centre p2 p3 : F) : F × F × F :=
+  if total = 2 then (A.pct 0, A.pct 0, A.pct 0)
+  else if total = 3 then (A.min centre (A.pct 3), A.pct 0, A.pct 0)
+  else if total = 4 then
+    (A.pct 0, A.sub (A.pct 100) (A.max (A.mul (A.sub (A.pct 100) p2) (A.pct 200)) (A.pct 80)), A.pct 0)
+  else if total = 5 then (A.min centre (A.pct 3), p2, A.pct 0)
+  else if total = 6 then
+    (A.pct 0, A.sub (A.pct 100) (A.max (A.mul (A.sub (A.pct 100) p2) (A.pct 200)) (A.pct 5)),
+      A.sub (A.pct 100) (A.max (A.mul (A.sub (A.pct 100) p3) (A.pct 200)) (A.pct 85)))
+  else (centre, p2, p3)
+
 /-- `get_random_note_count_mirrored(centre_probability, p2, p3)` -/
 def hitNoteCountMirrored (A : PArith F) (g : HitIn F) (centre p2 p3 : F) (s : Osu) :
     (Int × Bool) × Osu :=
-  let z := A.pct 0
-  let one := A.pct 100
-  let two := A.pct 200
-  let (centre, p2, p3) :=
-    if g.total = 2 then (z, z, z)
-    else if g.total = 3 then (A.min centre (A.pct 3), z, z)
-    else if g.total = 4 then (z, A.sub one (A.max (A.mul (A.sub one p2) two) (A.pct 80)), z)
-    else if g.total = 5 then (A.min centre (A.pct 3), p2, z)
-    else if g.total = 6 then
-      (z, A.sub one (A.max (A.mul (A.sub one p2) two) (A.pct 5)),
-        A.sub one (A.max (A.mul (A.sub one p3) two) (A.pct 85)))
-    else (centre, p2, p3)
-  let p2 := A.clamp01 p2
-  let p3 := A.clamp01 p3
+  let q := mirrorProbs A g.total centre p2 p3
   let (centreVal, s1) := nextDouble A s
-  let (n, s2) := noteCount A s1 p2 p3 z z z
-  let addToCentre := g.total % 2 != 0 && n != 3 && A.gt centreVal (A.sub one centre)
+  let (n, s2) := noteCount A s1 (A.clamp01 q.2.1) (A.clamp01 q.2.2) (A.pct 0) (A.pct 0) (A.pct 0)
+  let addToCentre := g.total % 2 != 0 && n != 3 && A.gt centreVal (A.sub (A.pct 100) q.1)
   ((n, addToCentre), s2)
 
 /-- the loop of `generate_random_pattern_with_mirrored` -/
@@ -495,6 +504,21 @@ structure PathIn (F : Type) where
   nodes : List Nat
   fuel : Nat
 
+/-- the slider arithmetic of `PathObjectPatternGenerator::new`: from `start_time` (the rounded `i32`),
+`span_count`, `expected_dist.unwrap_or(0.0)`, the precision-adjusted beat length and
+`slider_multiplier` to `(end_time, segment_duration)`:
+`end_time = (f64::from(start_time) + dist * beat_len * f64::from(span_count) * 0.01 / slider_multiplier).floor() as i32`,
+`segment_duration = (end_time - start_time) / span_count` (`i32` subtraction and division checked) -/
+def pathNewDelta (A : PArith F) (span : Int) (dist beatLen sm : F) : F :=
+  A.div (A.mul (A.mul (A.mul dist beatLen) (A.ofInt span)) (A.pct 1)) sm
+
+def pathNew (A : PArith F) (startT span : Int) (dist beatLen sm : F) : M (Int × Int) := do
+  let endT := A.floorI32 (A.add (A.ofInt startT) (pathNewDelta A span dist beatLen sm))
+  let d ← i32sub endT startT
+  if span = 0 then .error .arith
+  else if d = -2147483648 ∧ span = -1 then .error .arith
+  else .ok (endT, Int.tdiv d span)
+
 /-- `find_available_column(initial, validation, patterns)` of the path generator -/
 def pathFind (A : PArith F) (g : PathIn F) (avoid : Option Nat) (patterns : List Cols) (s : Osu)
     (initial : Nat) : M (Nat × Osu) :=
@@ -606,27 +630,29 @@ def pathMultiple (A : PArith F) (g : PathIn F) (startT : Int) (s : Osu) : M (Pat
   let iters ← inclusiveIters g.span 100000
   pathMultipleLoop A g interval legacy iters Pat.empty (getColumnSpecial g.total g.x) startT s1
 
+/-- the per-key-count caps of `generate_n_random_notes` -/
+def pathProbs (A : PArith F) (total : Nat) (p2 p3 p4 : F) : F × F × F :=
+  if total = 2 then (A.pct 0, A.pct 0, A.pct 0)
+  else if total = 3 then (A.min p2 (A.pct 10), A.pct 0, A.pct 0)
+  else if total = 4 then (A.min p2 (A.pct 30), A.min p3 (A.pct 4), A.pct 0)
+  else if total = 5 then (A.min p2 (A.pct 34), A.min p3 (A.pct 10), A.min p4 (A.pct 3))
+  else (p2, p3, p4)
+
 /-- `generate_n_random_notes(start_time, p2, p3, p4)`; `ct` is the current `convert_type` -/
 def pathNRandom (A : PArith F) (g : PathIn F) (ct : Nat) (startT : Int) (p2 p3 p4 : F) (s : Osu) :
     M (Pat × Osu) := do
-  let z := A.pct 0
-  let (p2, p3, p4) :=
-    if g.total = 2 then (z, z, z)
-    else if g.total = 3 then (A.min p2 (A.pct 10), z, z)
-    else if g.total = 4 then (A.min p2 (A.pct 30), A.min p3 (A.pct 4), z)
-    else if g.total = 5 then (A.min p2 (A.pct 34), A.min p3 (A.pct 10), A.min p4 (A.pct 3))
-    else (p2, p3, p4)
-  let dbl (x : Nat) : Bool := sampleHas x (S_CLAP ||| S_FINISH)
   -- `&&` / `||` short-circuit: `sample_info_list_at` (which can panic) is only evaluated if needed
   let canTwo ←
     (if has ct LOW_PROBABILITY then .ok false
-    else if dbl g.sample then .ok true
+    else if sampleHas g.sample (S_CLAP ||| S_FINISH) then .ok true
     else do
       let x ← sampleInfoAt g g.startT
-      .ok (dbl x) : M Bool)
-  let p2 := if canTwo then A.pct 100 else p2
-  let (n, s1) := noteCount A s p2 p3 p4 z z
-  pathRandomHoldNotes A g startT n s1
+      .ok (sampleHas x (S_CLAP ||| S_FINISH)) : M Bool)
+  pathRandomHoldNotes A g startT
+    (noteCount A s (if canTwo then A.pct 100 else (pathProbs A g.total p2 p3 p4).1)
+      (pathProbs A g.total p2 p3 p4).2.1 (pathProbs A g.total p2 p3 p4).2.2 (A.pct 0) (A.pct 0)).1
+    (noteCount A s (if canTwo then A.pct 100 else (pathProbs A g.total p2 p3 p4).1)
+      (pathProbs A g.total p2 p3 p4).2.1 (pathProbs A g.total p2 p3 p4).2.2 (A.pct 0) (A.pct 0)).2
 
 /-- the loop of `generate_tiled_hold_notes` -/
 def pathTiledLoop (A : PArith F) (g : PathIn F) (endT : Int) :
